@@ -51,7 +51,7 @@ def decide(fn, pre, good, *, inst, harness, replay, regions=(), twin=None, max_d
     for p in paths:
         if p.kind in ("cut", "timeout"):
             res["cut" if p.kind == "cut" else "timeouts"] += 1
-            if not allow_cut and (p.kind == "timeout" or eng.hard_truncated or not eng.soft_reasons):
+            if not allow_cut and (eng.hard_truncated or not eng.soft_reasons):
                 res["errors"].append(f"bound exceeded on a feasible path ({p.kind}); nothing claimed for {inst}")
             continue
         if p.kind == "exc":
@@ -104,6 +104,8 @@ def decide(fn, pre, good, *, inst, harness, replay, regions=(), twin=None, max_d
         res["errors"].append(f"negative twin of {inst} was not refuted (vacuous harness?)")
     if not paths:
         res["errors"].append(f"no feasible path for {inst} (vacuous)")
+    if any(p.kind == "timeout" for p in paths) and eng.soft_reasons and not eng.hard_truncated:
+        res.setdefault("notes", []).append("path watchdog fired; exploration incomplete: " + "; ".join(sorted(eng.soft_reasons)))
     if eng.truncated:
         cut_paths = [p for p in paths if p.kind == "cut"]
         if eng.hard_truncated or (cut_paths and not eng.soft_reasons):
